@@ -129,5 +129,6 @@ Proof.
 move=> a0 pJ.
 have -> : block_mx (A + a%:M) B B^T C = block_mx A B B^T C + block_mx a%:M 0 0 0.
   by rewrite add_block_mx !addr0.
-apply: psdD => // v; rewrite -[v]vsubmxK tr_col_mx mul_row_block mul_row_col !mulmx0.
+apply: psdD => // v; rewrite -[v]vsubmxK tr_col_mx mul_row_block mul_row_col !mulmx0 !addr0 mul0mx addr0.
+exact: (psd_scalar a0).
 Show. Abort. 
